@@ -3,65 +3,19 @@
     makes the hypothesis of the C14 theorems non-vacuous and lets the examples
     go through the theorems. *)
 From Coq Require Import Lia ZifyBool ZifyNat ZifyN.
-From HP Require Import Base.Bytes Base.Utf8 Base.Num Model.Parser Spec.PrintSpec Proofs.PrintBytes.
+From HP Require Import Base.Bytes Base.Utf8 Base.Num Model.Parser Spec.PrintSpec Proofs.PrintBytes Proofs.PrintDecimal.
 Open Scope N_scope.
-
-Lemma digits_val_app x : forall y a,
-  digits_val (x ++ y) a = match digits_val x a with Some a' => digits_val y a' | None => None end.
-Proof.
-  induction x as [|c x IH]; intros y a; [reflexivity|]. cbn [app digits_val].
-  destruct (is_digit c); [apply IH|reflexivity].
-Qed.
-
-Lemma ddf_unfold f n acc :
-  dec_digits_fuel (S f) n acc
-  = if n / 10 =? 0 then (48 + n mod 10) :: acc else dec_digits_fuel f (n / 10) ((48 + n mod 10) :: acc).
-Proof. reflexivity. Qed.
-
-Lemma ddf_spec fuel : forall n acc, n < 2 ^ N.of_nat fuel ->
-  exists ds, dec_digits_fuel (S fuel) n acc = ds ++ acc /\ ds <> [] /\ forallb is_digit ds = true
-             /\ forall a, digits_val ds a = Some (a * 10 ^ N.of_nat (length ds) + n).
-Proof.
-  induction fuel as [|fuel IH]; intros n acc Hn.
-  - assert (n = 0) by (cbn in Hn; lia). subst n. exists [48]. split; [reflexivity|].
-    split; [discriminate|]. split; [reflexivity|]. intros a. cbn. f_equal; lia.
-  - rewrite ddf_unfold.
-    assert (Hm : n mod 10 < 10) by (apply N.mod_lt; lia).
-    assert (Hdm : n = 10 * (n / 10) + n mod 10) by (apply N.div_mod'; lia).
-    assert (Hd : is_digit (48 + n mod 10) = true) by (unfold is_digit; lia).
-    destruct (N.eqb_spec (n / 10) 0) as [Hq|Hq].
-    + exists [48 + n mod 10]. split; [reflexivity|]. split; [discriminate|].
-      split; [cbn [forallb]; rewrite Hd; reflexivity|]. intros a. cbn [digits_val length]. rewrite Hd.
-      f_equal. change (10 ^ N.of_nat 1) with 10. lia.
-    + assert (Hq2 : n / 10 < 2 ^ N.of_nat fuel).
-      { apply N.div_lt_upper_bound; [lia|]. rewrite Nat2N.inj_succ, N.pow_succ_r' in Hn. lia. }
-      destruct (IH (n / 10) ((48 + n mod 10) :: acc) Hq2) as [ds' [E [Hne [Hdig Hval]]]].
-      exists (ds' ++ [48 + n mod 10]). split; [rewrite E; rewrite <- app_assoc; reflexivity|].
-      split; [destruct ds'; discriminate|]. split; [rewrite forallb_app, Hdig; cbn [forallb]; rewrite Hd; reflexivity|].
-      intros a. rewrite digits_val_app, Hval. cbn [digits_val]. rewrite Hd. f_equal.
-      rewrite app_length. cbn [length]. rewrite Nat.add_1_r, Nat2N.inj_succ, N.pow_succ_r'.
-      set (P := 10 ^ N.of_nat (length ds')) in *. lia.
-Qed.
-
-Lemma dec_of_N_spec n :
-  dec_of_N n <> [] /\ forallb is_digit (dec_of_N n) = true /\ digits_val (dec_of_N n) 0 = Some n.
-Proof.
-  unfold dec_of_N.
-  destruct (ddf_spec (N.to_nat (N.size n)) n []) as [ds [E [Hne [Hdig Hval]]]].
-  - rewrite N2Nat.id. apply N.size_gt.
-  - rewrite E. rewrite app_nil_r. split; [exact Hne|]. split; [exact Hdig|]. rewrite Hval. reflexivity.
-Qed.
 
 Lemma Z_of_lexeme_dec z : Z_of_lexeme (dec_of_Z z) = Some z.
 Proof.
   destruct z as [|p|p]; [reflexivity| |].
-  - cbn [dec_of_Z]. destruct (dec_of_N_spec (Npos p)) as [Hne [Hdig Hval]].
+  - cbn [dec_of_Z]. destruct (dec_of_N_spec (Npos p)) as [Hne [Hdig [Hval _]]].
     destruct (dec_of_N (Npos p)) as [|c r] eqn:E; [congruence|].
     unfold Z_of_lexeme. cbn [forallb] in Hdig. apply andb_true_iff in Hdig. destruct Hdig as [Hc _].
     assert (H45 : (c =? 45) = false) by (unfold is_digit in Hc; lia).
     assert (H43 : (c =? 43) = false) by (unfold is_digit in Hc; lia).
     rewrite H45, H43, Hval. reflexivity.
-  - cbn [dec_of_Z]. destruct (dec_of_N_spec (Npos p)) as [Hne [Hdig Hval]].
+  - cbn [dec_of_Z]. destruct (dec_of_N_spec (Npos p)) as [Hne [Hdig [Hval _]]].
     unfold Z_of_lexeme. change (c_dash =? 45) with true. cbv iota.
     destruct (dec_of_N (Npos p)) as [|c r] eqn:E; [congruence|]. rewrite Hval. reflexivity.
 Qed.
